@@ -18,6 +18,7 @@ pub struct FloatFmt<T> {
     pub required_mantissa_sign: bool,
     pub required_exponent_sign: bool,
     pub no_positive_mantissa_sign: bool,
+    pub no_special: bool,
     pub write: fn(T, &mut [u8], &WriteFloatOptions) -> usize,
     pub bufsize: fn(&WriteFloatOptions) -> usize,
     pub parse: fn(&[u8], &ParseFloatOptions) -> PRes<T>,
@@ -79,6 +80,7 @@ macro_rules! float_fmt {
             required_mantissa_sign: nf.required_mantissa_sign(),
             required_exponent_sign: nf.required_exponent_sign(),
             no_positive_mantissa_sign: nf.no_positive_mantissa_sign(),
+            no_special: nf.no_special(),
             write: w::<$t>,
             bufsize: bs::<$t>,
             parse: p::<$t>,
